@@ -1683,6 +1683,10 @@ class FDE:
                 return list(r) if n in ('range', 'enumerate', 'zip', 'reversed', 'map', 'filter') else r
             if n in env and callable(env[n]) and getattr(env[n], '_fde_ok', False):
                 return self._standin(env[n], args, kwargs)
+            if n in env and isinstance(env[n], tuple) and len(env[n]) == 2 and env[n][0] == 'ext':
+                for k_, v_ in self.externals.items():
+                    if v_ is env[n][1] and k_ in self.extcalls:
+                        return self._standin(self.extcalls[k_], args, kwargs)       # an alias of an external class the rule supplies a stand-in constructor for
             if n not in env and n in self.free and callable(self.free[n]) and getattr(self.free[n], '_fde_ok', False):
                 return self._standin(self.free[n], args, kwargs)
             if n in env and isinstance(env[n], tuple) and env[n] and env[n][0] == 'closure' and n in self.stubs and self.stub is not None:
